@@ -64,7 +64,15 @@ class MystParser(SphinxParser):
 
         """
         # get the global config
-        config: MdParserConfig = document.settings.env.myst_config
+        env = document.settings.env
+        config: MdParserConfig = env.myst_config
+
+        # sphinx's i18n transform re-parses each translated message on its own
+        # (source "<path>:<line>:<translated>"), without the document's front matter,
+        # so these start from the file-level config of the document being read
+        translated = str(document.get("source", "")).endswith(":<translated>")
+        if translated:
+            config = env.temp_data.get("myst_file_config", config)
 
         # update the global config with the file-level config
         try:
@@ -77,6 +85,8 @@ class MystParser(SphinxParser):
                     document, msg, wtype, line=1, append_to=document
                 )
                 config = merge_file_level(config, topmatter, warning)
+        if not translated:
+            env.temp_data["myst_file_config"] = config
 
         parser = create_md_parser(config, SphinxRenderer)
         parser.options["document"] = document
